@@ -27,7 +27,13 @@ def setup() -> int:
 
     tables.regenerate()
     rc = 0
-    for prop in manifest_props():
+    props = manifest_props()
+    # one lake invocation for everything first: lake schedules the modules of all properties over all
+    # cores (the per-property calls below then only confirm, and report per property what is broken)
+    targets = [common.prop_module(p) for p in props] + [common.driver_name(p) for p in props if common.has_driver(p)]
+    common.build_shared()
+    common._lake(["build", *targets], lock="global")
+    for prop in props:
         common.build_shared()
         code, log = common._lake(["build", common.prop_module(prop)], lock=prop)
         if code != 0:
